@@ -50,6 +50,7 @@ def c01Tokens : List String → Option (List Token)
   | "-true" :: r => (c01Tokens r).map (Token.test .true_ :: ·)
   | "-false" :: r => (c01Tokens r).map (Token.test .false_ :: ·)
   | "-name" :: "x" :: r => (c01Tokens r).map (Token.test (.name ['x']) :: ·)
+  | "-depth" :: r => (c01Tokens r).map (Token.test .true_ :: ·)   -- inside the expression an option stands for -true (C13)
   | _ => none
 
 /-- C01 on the implementation: accepted exactly when the words form a sentence, with the
@@ -65,7 +66,8 @@ def checkC01 (input : Text) (obs : String) : Option String :=
   | some ts =>
     match climb .release ts, decodeParse obs with
     | .ok e _, .ok o e' =>
-      if e = e' && o = {} then none else some s!"wrong-tree expected={(exprSx e).print}"
+      let wantOpts : RunOptions := { depth := words.any (· = "-depth"), threads := none }
+      if e = e' && o = wantOpts then none else some s!"wrong-tree expected={(exprSx e).print}"
     | .ok e _, _ => some s!"sentence-rejected expected={(exprSx e).print}"
     | _, .ok _ e' => some s!"non-sentence-accepted got={(exprSx e').print}"
     | _, .err _ _ _ _ _ => none
